@@ -360,6 +360,8 @@ def concrete_order_violation(paths, tags, nums, outl):
             continue
         if keys[i] > keys[j]:
             return "r%d (key %r) written before r%d (key %r)" % (i, keys[i][1:], j, keys[j][1:])
+        if keys[i] == keys[j] and i > j:
+            return "r%d written before r%d although both have key %r (equal keys must stay in input order)" % (i, j, keys[i][1:])
     return None
 
 
